@@ -82,6 +82,17 @@ where
     returns `None`.
     */
     fn current(&self) -> Option<(&Self::Key, &Vec<u8>)>;
+
+    /**
+    Take the error that made `next` or `prev` stop early, if there was one.
+
+    `next` and `prev` cannot return an error: an iterator that fails to read what comes next
+    turns invalid, exactly as if it had reached the end. Callers that must not mistake the two
+    (e.g. a compaction, which would otherwise drop the entries it did not get to see) ask here.
+    */
+    fn take_error(&mut self) -> Option<Self::Error> {
+        None
+    }
 }
 
 /**
@@ -139,6 +150,10 @@ impl RainDbIterator for CachingIterator {
     type Key = InternalKey;
 
     type Error = RainDBError;
+
+    fn take_error(&mut self) -> Option<Self::Error> {
+        self.iterator.take_error()
+    }
 
     fn is_valid(&self) -> bool {
         self.is_valid
